@@ -7,7 +7,9 @@ C06 — Result completeness: every reported sample is written once, well-formed,
 (iii) process shutdown (`Model.CliShutdown`), all event orders; which variant of the signal branch the
       code is, which signals are notified and which cancel comes from the regenerated `Pandora.Gen.Cli`.
 (iv)  the pool's await loop (`Model.C06Pool`); (v) `Engine.Run` over any number of pools and the context tree of
-      `runAsync` (`Model.C06Engine`); (vi) a sink that starts to reject writes (`Model.C06SinkFail`).
+      `runAsync` (`Model.C06Engine`); (vi) a sink that starts to reject writes (`Model.C06SinkFail`);
+(vii) the error the encoder aggregator ends with when several faults coincide (`Model.C06ErrJoin`; `errutil.Join`
+      and the deferred joins of `Run` regenerated).
 The tie of the models to the running code is the correspondence harness (harness/cmd/c06).
 -/
 import Pandora.Bridge.C06Phout
@@ -19,6 +21,8 @@ import Pandora.Proofs.C06Pool
 import Pandora.Proofs.C06Engine
 import Pandora.Proofs.C06PoolLive
 import Pandora.Proofs.C06SinkFail
+import Pandora.Bridge.C06ErrJoin
+import Pandora.Proofs.C06ErrJoin
 
 namespace Pandora.Props.C06
 open Pandora.Model.Phout Pandora.Proofs.C06
@@ -707,6 +711,35 @@ theorem C06_engine_nil_after_aggregators (n : Nat) (trace : List EEv) :
   obtain ⟨a, b, c, d, _⟩ := wd_all (inv.pinv j) hw
   exact ⟨hr, hw, a, b, c, d, (inv.pinv j).noSend⟩
 
+/-- **a failed or cancelled run, after `Engine.Wait`** (round 3) — whatever `Engine.Run` returned (nil, the error of
+the first pool that failed, the context's error) and whatever the pools did: `Engine.Wait()` returns when every
+pool has called `onWaitDone` (`wait.Add(1)` per pool, `Done` only there), and a pool whose `onWaitDone` has
+happened has an aggregator that returned and was awaited, no running instance, a closed `runRes`, no send on a closed
+channel. So the caller that cancels and waits — what cli.go does when the engine fails by itself or a signal
+arrives — finds every result flushed and closed, the healthy pools' too. -/
+theorem C06_engine_wait_after_aggregators (n : Nat) (trace : List EEv) :
+    let st := run (init n n Gen.AggQ.engineResultsToWait) trace
+    (∀ j, j < n → (st.pools j).p.waitDone = true) →
+      ∀ j, j < n → (st.pools j).p.aggDone = true ∧ (st.pools j).p.aggOpen = false ∧
+        (st.pools j).p.runResOpen = false ∧ (st.pools j).p.running = 0 ∧ (st.pools j).p.sendOnClosed = false := by
+  intro st hw j hj
+  have hst : st = run (init n n 4) trace := by
+    show run (init n n Gen.AggQ.engineResultsToWait) trace = _
+    rw [Bridge.AggQ.results_to_wait]
+  have inv : EngInv st := by rw [hst]; exact enginv_run trace (enginv_init n n)
+  obtain ⟨a, b, c, d, _⟩ := wd_all (inv.pinv j) (hw j hj)
+  exact ⟨a, b, c, d, (inv.pinv j).noSend⟩
+
+/-- non-vacuity: two pools; pool 0 fails (its `Run` returns an error while its tasks are still being awaited), the
+engine returns that error; then both pools finish their tasks: `Wait` can return, both aggregators have returned -/
+example :
+    let pool : Nat → List EEv := fun j =>
+      ([.launch, .startDone, .report 0, .finish, .awaitStart, .awaitInst, .aggReturn, .awaitAgg, .provReturn,
+        .awaitProv, .waitDone] : List Pandora.Model.C06Pool.PEv).map (EEv.pool j)
+    let st := run (init 2 2 Gen.AggQ.engineResultsToWait) ([.poolRetErr 0, .poolSend 0, .engRecv] ++ pool 0 ++ pool 1)
+    st.ret = some false ∧ (st.pools 0).p.waitDone = true ∧ (st.pools 1).p.waitDone = true ∧
+      (st.pools 1).p.aggDone = true := by decide
+
 /-- the same for one pool, whatever the engine does: `pool.Run` returns nil only after its aggregator returned -/
 theorem C06_engine_pool_nil_after_aggregator (n awaitN : Nat) (trace : List EEv) (j : Nat) :
     let st := run (init n awaitN Gen.AggQ.engineResultsToWait) trace
@@ -936,6 +969,80 @@ theorem C06_shutdown_unnotified_counterexample :
   have := h [.signal .term] ⟨.killed, false⟩ (by decide)
   simp at this
 
+/-- (round 3) the engine fails by itself — one pool's provider, gun or aggregator failed, `Engine.Run` returned the
+error and only CANCELLED the other pools — and the process would exit without `pandora.Wait()`: what the other
+pools' aggregators still hold is lost. The code waits (`Gen.Cli.errsFirstBranchWaits`, part of `codeCfg`). -/
+theorem C06_shutdown_failfirst_nowait_counterexample :
+    ¬ (∀ (trace : List Ev) (x : Exit),
+        (run { Cfg.repaired with waitOnFail := false } {} trace).exit = some x →
+        x.flushed = true ∨ x.reason = .timeout ∨ x.reason = .secondSignal) := by
+  intro h
+  have := h [.engineReturned false, .takeErrs] ⟨.engineFailed, false⟩ (by decide)
+  simp at this
+
+/-- non-vacuity of `C06_shutdown` on that path: the engine fails, the main goroutine takes the error, cancels, waits
+for the tasks, exits — flushed -/
+example :
+    (run Bridge.Cli.codeCfg {} [.engineReturned false, .takeErrs, .tasksDone, .takeWaitDone]).exit =
+      some ⟨.engineFailed, true⟩ ∧
+    (run Bridge.Cli.codeCfg {} [.engineReturned false, .takeErrs]).cancelled = true ∧
+    (run Bridge.Cli.codeCfg {} [.engineReturned false, .takeErrs, .takeWaitDone]).exit = none := by decide
+
 end Cli
+
+/-! ## (vii) the error of the encoder aggregator when faults coincide -/
+
+section ErrJoin
+open Pandora.Model.C06ErrJoin Pandora.Proofs.C06ErrJoin
+
+/-- `errutil.Join` and the deferred joins of `dataSinkAggregator.Run`, as regenerated from the source, are the
+table and the order the model computes with -/
+theorem C06_errjoin_regenerated :
+    Bridge.ErrJoin.decodeTable Gen.AggQ.errutilJoinCases = some codeJoin ∧
+    Bridge.ErrJoin.execOrder Gen.AggQ.encoderDeferJoins = some codeOrder :=
+  ⟨Bridge.ErrJoin.join_table, Bridge.ErrJoin.defer_order⟩
+
+/-- **the drop count is never masked** — whatever else goes wrong in the same run of a bounded-queue encoder
+aggregator (the loop ended with an encode/flush error, the encoder's final Close/Flush failed, the sink's Close
+failed; any combination) and however many samples were dropped: the error `Run` ends with contains the
+`N samples were dropped` error with exactly the number of drops iff there were drops, it is nil iff nothing
+failed and nothing was dropped, and every fault that happened is a member (none is swallowed by another). -/
+theorem C06_encoder_drop_count_never_masked (f : Faults) :
+    droppedOf (finalErr codeJoin codeOrder f) = (if f.dropped = 0 then none else some f.dropped) ∧
+    (finalErr codeJoin codeOrder f = [] ↔
+      (f.loop = false ∧ f.encFinal = false ∧ f.sinkClose = false ∧ f.dropped = 0)) ∧
+    (Src.loop ∈ finalErr codeJoin codeOrder f ↔ f.loop = true) ∧
+    (Src.encFinal ∈ finalErr codeJoin codeOrder f ↔ f.encFinal = true) ∧
+    (Src.sinkClose ∈ finalErr codeJoin codeOrder f ↔ f.sinkClose = true) := by
+  obtain ⟨l, e, c, d⟩ := f
+  by_cases hd : d = 0
+  · subst hd
+    cases l <;> cases e <;> cases c <;> decide
+  · cases l <;> cases e <;> cases c <;>
+      simp [finalErr, codeOrder, codeJoin, evalJoin, Faults.errOf, droppedErr, hd, Cond.holds, Ret.value, droppedOf]
+
+/-- the same for ANY order in which the deferred functions might join (as long as the drop count is joined at
+all): with the code's `Join` nothing depends on the order -/
+theorem C06_encoder_drop_count_any_order (f : Faults) (order : List Joined) (hm : Joined.dropped ∈ order) :
+    droppedOf (finalErr codeJoin order f) = (if f.dropped = 0 then none else some f.dropped) := by
+  rw [finalErr_code]
+  have hl : droppedOf (if f.loop then [Src.loop] else []) = none := by split <;> simp [droppedOf]
+  rw [droppedOf_append_of_none hl]
+  by_cases hd : f.dropped = 0
+  · simp [hd, droppedOf_flatten_zero f hd order]
+  · simp [hd, droppedOf_flatten_mem f hd order hm]
+
+/-- non-vacuity: everything fails at once and 7 samples were dropped -/
+example : finalErr codeJoin codeOrder ⟨true, true, true, 7⟩ = [.loop, .encFinal, .sinkClose, .dropped 7] ∧
+    droppedOf (finalErr codeJoin codeOrder ⟨true, true, true, 7⟩) = some 7 := by decide
+
+/-- a `Join` that lets the first error win does not have the property: a failing `sink.Close()` hides the drops -/
+theorem C06_encoder_join_firstwins_counterexample :
+    ¬ (∀ f : Faults, droppedOf (finalErr firstWinsJoin codeOrder f) = (if f.dropped = 0 then none else some f.dropped)) := by
+  intro h
+  have := h ⟨false, false, true, 3⟩
+  revert this; decide
+
+end ErrJoin
 
 end Pandora.Props.C06
